@@ -41,7 +41,8 @@ EXTEND1 = {"add1", "add2", "addf", "addnew"}
 EXTEND2 = {"nconc", "nreconc", "rplacd"}
 
 
-LIGHT2 = {"revappend", "concatenate", "union", "merge"}
+LIGHT2 = {"revappend", "concatenate", "union", "merge", "setf-subseq"}
+SMALL_ALWAYS = {"union", "merge", "remove-duplicates", "delete-duplicates"}  # element-by-element ObjectEqual: paths grow as len!
 
 
 def shapes(name, maxlen, maxcap, lists):
@@ -90,7 +91,8 @@ def cases(ops, bounds, lists, sample=None):
     for name in ops:
         if lists == 2 and sample is None and name in THOROUGH_ONLY:
             continue
-        shp = sample if sample is not None else shapes(name, bounds[0], bounds[1], lists)
+        b = (min(bounds[0], 3), min(bounds[1], 4)) if name in SMALL_ALWAYS else bounds
+        shp = sample if sample is not None else shapes(name, b[0], b[1], lists)
         for (e0, sp0, p1, sp1, p2) in shp:
             n = lists if p2 >= 0 else 2
             for i1 in range(n):
@@ -129,7 +131,7 @@ def main():
             "cases": {"quick": q, "thorough": t}, "reach": ["ran"], "carved_out": carves,
             "overrides": OVERRIDES,
             "max_depth": 600, "max_steps": 40000000, "solver_timeout_ms": 10000,
-            "note": NOTE % ", ".join(ops),
+            "note": NOTE % ", ".join(ops), "assumptions": ASSUME,
         })
     obligations.append({
         "id": "C06.findings", "property": "C06", "pkg": "pkg/cl", "entry": "VerifC06Step",
@@ -166,13 +168,32 @@ FINDING_CASES = [
 ]
 QUICK_SPARES = [0, 1, 2]
 THOROUGH_SPARES = [0, 1, 2]
-NOTE = ("operations: %s. One step from a pool of lists built as slip.List re-slices of 1-2 backing arrays (pool invariant I: "
-        "lists over one array are tails of each other, spare capacity behind the common end); parameters (op, e0, sp0, p1, sp1, p2, sel) "
-        "enumerate shapes exhaustively: quick 2 lists, len<=3, cap<=4; thorough 3 lists, len<=4, cap<=6, spare in {0,1,2}; operands = every "
-        "choice of pool lists. Symbolic: every cell value (visible and spare, fixnums in (-1000,1000)), the item x/y, the integer arguments "
-        "n/m (full int64). The form is evaluated through the real registry (scope.Eval). Post-conditions: no Go fault; every cell of every "
-        "backing array equals its snapshot / the value the cons model prescribes unless the model frees it; result contents = reference model; "
-        "result placement (fresh / the defined tail / reuse of the destructive argument); two evaluations share no cell; invariant I for pool+result.")
+NOTE = ("operations: %s. ONE inductive step from a pool of lists built directly as slip.List re-slices of 1-2 backing arrays "
+        "(pool invariant I by construction: the lists over one array are tails of each other and end at the same cell, the cells behind "
+        "that end are spare capacity, arrays are disjoint); parameters (op, e0, sp0, p1, sp1, p2, sel): array 0 has e0 visible + sp0 spare cells, "
+        "list a = all of it; p1 = list b: tail of a from cell p1 (0 = the same list, e0 = the empty tail) or 10+e1 = own array with e1 visible + sp1 "
+        "spare cells; p2 = optional third list (tail of a or of b); sel = which pool lists are the operands. "
+        "Shapes are enumerated exhaustively by zz_verif_c06_cases.py: quick: 2 lists, len<=3, cap<=4, spare 0/1 (0/1/2 for the operations that "
+        "append in place); single-operand operations: b = every tail of a or one separate array, operand a, or b when it is a proper tail; "
+        "two-operand operations: b also every separate array (len 0..3), every operand pair; a few secondary operations only in thorough. "
+        "thorough: len<=4, cap<=6, every list as operand, append/rplacd/nconc/nreconc with a third list; union/merge/*-duplicates stay at len<=3. "
+        "Symbolic: every cell value, visible and spare (unconstrained int64 fixnums; bounded to (-1000,1000) for mapcar 1+ only), the items x/y, "
+        "the integer arguments n/m (:start :end :count, n of nthcdr/last/butlast/nth/elt, subseq bounds; full int64). The form is evaluated "
+        "through the real registry (scope.Eval of a slip.List form in a scope where the pool lists are bound to a, b, c), push/pop/setf/addf forms included. "
+        "Post-conditions, decided for all values: no Go run-time fault; (1) every cell of every backing array holds its snapshot value, or the value the "
+        "cons model prescribes (setf car/nth/elt/subseq, rplaca, fill, nsubstitute), unless the model frees it (own cells of nreverse/sort/delete-duplicates, "
+        "spare cells behind the target of nconc/nreconc/add/addf/addnew/rplacd, rplacd's cells not seen by a live tail); after a signalled condition nothing "
+        "may have changed; (2) result (and rebound variable) contents = index-based reference model over the snapshots; (3) placement: fresh (outside every pool array) "
+        "/ exactly the tail the language defines (cdr, rest, nthcdr, member, pop) / that tail or a copy (last, adjoin-found) / reuse from the first cell of the "
+        "destructive argument; two evaluations of a copying operation share no cell; (4) invariant I for pool+result: a value living in a pool array ends at that "
+        "array's visible end. Stubs (engine only, the native replay runs the real code): ErrorNew/TypeErrorNew without the formatted text, AppendToStack/WrapError "
+        "without printing the call - decimal text of symbolic integers would fork per digit, no assertion looks at message text. A Go fault inside Function.Eval "
+        "is wrapped by slip into an error condition: it is recognised by vrt.Faults() in the engine and by the 'runtime error' text natively.")
+ASSUME = ["list elements are fixnums (no nested lists, no dotted lists in the pool)",
+          "pool states satisfy invariant I; shapes with a stale prefix (lists with different ends over one array) arise only through the carved-out in-place extension and are not explored",
+          "nconc/nreconc with two non-empty operands over one array (a circular list in the cons model) and (setf (subseq ..)) with source and target over one array are not run",
+          "remove/delete/substitute are required to return fresh lists and merge/union/delete not to touch their arguments (what slip implements); CL would also allow sharing/reuse there",
+          "for arguments outside the CL domain (negative n, bounds out of range) only 'no Go fault' and 'nothing else changed' are required"]
 
 if __name__ == "__main__":
     main()
